@@ -56,6 +56,7 @@ theorem Frame.trans {a b c : State} (h1 : Frame a b) (h2 : Frame b c) : Frame a 
   ⟨h2.farmers.trans h1.farmers, h2.ledger.trans h1.ledger, h1.evolve.trans h2.evolve⟩
 
 theorem BankOnly.frame {s s' : State} (b : BankOnly s s') : Frame s s' := ⟨b.farmers, b.ledger, evolve_same b.pools⟩
+theorem Quiet.frame {s s' : State} (b : Quiet s s') : Frame s s' := ⟨b.farmers, b.ledger, evolve_same b.pools⟩
 
 theorem updOk_frame {s s' : State} {id : PoolId} {p p' : Pool} {amount : Int} {d : Bool}
     (hp : getPool s id = some p) (h : UpdOk s s' id p p' amount d) : Frame s s' :=
@@ -81,7 +82,7 @@ theorem refund_frame {s : State} {id : PoolId} {p : Pool} (hp : getPool s id = s
     rcases hr with ⟨_, hr⟩ | ⟨_, e, _, hr⟩ | ⟨_, s2, hs, hr⟩
     · rw [hr]; exact (f0.trans f1).trans f2
     · rw [hr]; exact (f0.trans f1).trans f2
-    · rw [hr]; exact ((f0.trans f1).trans f2).trans (sendAll_ok hs).1.frame
+    · rw [hr]; exact (((f0.trans f1).trans f2).trans (sendAll_ok hs).1.frame).trans (withCp_quiet _ _).frame
 
 theorem endBlockOne_frame {s s' : State} {id : PoolId} (h : endBlockOne s id = .ok s') : Frame s s' := by
   unfold endBlockOne at h
@@ -120,6 +121,20 @@ theorem enqueue_frame (s : State) (id : PoolId) (h : Int) : Frame s (enqueue s i
   unfold enqueue; split
   · exact Frame.refl _
   · exact ⟨rfl, rfl, evolve_same rfl⟩
+
+theorem createCore_frame {s2 s' : State} {id creator desc lpt start rpb total editable}
+    (h : createPoolCore s2 id creator desc lpt start rpb total editable = .ok s') : Frame s2 s' := by
+  obtain ⟨m, hnone, _, rfl⟩ := createPoolCore_ok h
+  refine Frame.trans ?_ (enqueue_frame _ _ _)
+  exact ⟨rfl, rfl, evolve_new hnone rfl⟩
+
+/-- a community-pool operation leaves farmers, ledger and the pools' reward denoms alone -/
+theorem qEffect_frame {s s' : State} (h : QEffect s s') : Frame s s' := by
+  cases h with
+  | frame f => exact f.frame
+  | created sa s2 c f1 hd f2 =>
+    obtain ⟨_, _, _, s1, h1, h2⟩ := hd
+    exact ((f1.frame.trans (sendAll_ok h1).1.frame).trans (createCore_frame h2)).trans f2.frame
 
 theorem createPool_frame {s s' : State} {id sender desc lpt start rpb total editable}
     (h : stepCreatePool s id sender desc lpt start rpb total editable = .ok s') : Frame s s' := by
@@ -358,12 +373,18 @@ theorem ledgerInv_stepMsg {s s' : State} {op : Op} (hi : Inv s) (hl : LedgerInv 
   | unstake sender id denom amt => exact ledgerInv_unstake hi hl h
   | harvest sender id => exact ledgerInv_harvest hi hl h
   | endBlocks n => simp [stepMsg] at h; subst h; exact hl
+  | cpPass pid => simp [stepMsg] at h; subst h; exact hl
+  | cpReject pid => simp [stepMsg] at h; subst h; exact hl
+  | cpFailDeposit pid => simp [stepMsg] at h; subst h; exact hl
+  | cpSubmit proposer title c deposit => exact ledgerInv_frame (cpSubmit_quiet h).frame hi.core.fpool hl
+  | fundCp sender amt => exact ledgerInv_frame (fundCp_quiet h).frame hi.core.fpool hl
 
 theorem ledgerInv_apply (s : State) (op : Op) (hi : Inv s) (hl : LedgerInv s) : LedgerInv (apply s op) := by
-  rcases apply_cases s op with ⟨n, _, h⟩ | h | ⟨h, _, _⟩
+  rcases apply_cases s op with ⟨n, _, h⟩ | h | ⟨h, _, _⟩ | h
   · rw [h]; exact ledgerInv_frame (endBlocks_frame n s) hi.core.fpool hl
   · rw [h]; exact hl
   · exact ledgerInv_stepMsg hi hl h
+  · exact ledgerInv_frame (qEffect_frame (govStep_q h)) hi.core.fpool hl
 
 theorem ledgerInv_run : ∀ (ops : List Op) (s : State), Inv s → LedgerInv s → LedgerInv (run s ops)
   | [], _, _, hl => hl
